@@ -15,7 +15,7 @@ ASSUMPTIONS = ['O-diff is a transcription of node-semver 7.5.4 functions/diff.js
 
 def groups(tier):
     L = 1 if tier == 'quick' else 5
-    gs = [{'name': 'diff-L%d' % L, 'fn': diff_group, 'args': {'L': L}}]
+    gs = [{'name': 'diff-L%d' % L, 'fn': diff_group, 'args': {'L': L}}, {'name': 'display-names', 'fn': display_group, 'args': {}}]
     if tier != 'quick':
         gs.append({'name': 'kani-k2', 'fn': kani_group, 'args': {}, 'timeout_s': 1200})
     return gs + [validation_group(('diff',), tier)]
@@ -80,3 +80,17 @@ def kani_group(s):
     goal = AND(ab.tag == ba.tag, z3.Implies(is_variant(ab, 'Some'), code_of(ab) == code_of(ba)), is_variant(ab, 'None') == (c.tag == 1))
     status, _, _ = h.check(h.wf, goal)
     kani.cross_check(s, 'k2_diff_sym', status == 'unsat', 'Version::diff symmetric and None exactly at Equal')
+
+
+def display_group(s):
+    """native spot check (core::fmt is outside the encoding): each VersionDiff variant prints as node-semver's release-type name"""
+    pairs = [('1.2.3', '2.0.0', 'major'), ('1.2.3', '1.3.0', 'minor'), ('1.2.3', '1.2.4', 'patch'), ('1.2.3', '2.0.0-rc', 'premajor'),
+             ('1.2.3', '1.3.0-rc', 'preminor'), ('1.2.3', '1.2.4-rc', 'prepatch'), ('1.2.3-a', '1.2.3-b', 'prerelease'), ('1.2.3', '1.2.3+b', 'none')]
+    prog = []
+    for i, (a, b, _) in enumerate(pairs):
+        prog += [{'id': 'a%d' % i, 'op': 'version', 'text': a}, {'id': 'b%d' % i, 'op': 'version', 'text': b}, {'id': 'd%d' % i, 'op': 'diff', 'a': 'a%d' % i, 'b': 'b%d' % i}]
+    native = rp.run(s.binary, [prog])[0]
+    bad = ['%s vs %s prints %r, expected %r' % (a, b, native.get('d%d' % i), w) for i, (a, b, w) in enumerate(pairs) if native.get('d%d' % i) != w]
+    s.validated += len(pairs)
+    s.add(ob='VersionDiff prints as node-semver\'s release-type names (native spot check, %d pairs)' % len(pairs), mode='native', solver_s=0.0, kind='prove',
+          verdict='violated' if bad else 'holds', detail='; '.join(bad[:3]), case={'pairs': len(pairs)}, program=prog if bad else None, native=None)
